@@ -6,6 +6,7 @@ import ReuseVerif.Lemmas.StyleTable
 import ReuseVerif.Lemmas.C07Achievable
 import ReuseVerif.Lemmas.C07Scan
 import ReuseVerif.Lemmas.C07Closed
+import ReuseVerif.Lemmas.C07Window
 import ReuseVerif.Theorems.C02
 
 namespace C07
@@ -186,6 +187,72 @@ theorem C07_file (c : HdrCfg) (replace skip : Bool) (info : Extracted) (text t :
     rw [ht, hshape]; unfold retranslate; simp
   rw [ht'] at hns ⊢
   exact C07_tags_compose pre p'.1 post hpre hns (hclosed p' hp)
+
+/-- **The file through lint's window (C07_file_window).**  What `reuse lint` extracts is not the
+    whole file but the decoded first 4096 bytes (`Model.window` / `decodedText`: UTF-8 with
+    replacement, line endings folded; the whole file when it holds a snippet marker).  If the
+    written text *up to the end of the header block* (`headPart`: what was above the header,
+    right-stripped, an empty line, the block) fits into 4096 bytes of UTF-8 and holds no carriage
+    return, then the extraction of the **decoded window of the written file** yields everything
+    requested and everything the replaced header declared — whatever follows the header, however
+    long, valid UTF-8 or not beyond the window's cut.  (`hfit` fails exactly for the known finding
+    c07-header-beyond-window.) -/
+theorem C07_file_window (c : HdrCfg) (replace skip : Bool) (info : Extracted) (text t : Text)
+    (hmerge : c.merge = false) (hnorm : ∀ x, c.normLic (c.normLic x) = c.normLic x)
+    (hle : detectLineEnding text = ['\n'])
+    (h : annotateText c replace skip info text = .written t)
+    (hclosed : ∀ p, headerParts c replace info (Py.replace text ['\n'] ['\n']) = .ok p →
+      tagLinesClosed Generated.endRe p.1 = true)
+    (hfit : ∀ p, headerParts c replace info (Py.replace text ['\n'] ['\n']) = .ok p →
+      (encodeUtf8 (headPart p.1 p.2.1)).length ≤ 4096 ∧ '\r' ∉ headPart p.1 p.2.1)
+    (hns : noIgnoreStart (decodedText (window (encodeUtf8 t))) = true) :
+    Declares c.normLic (extractRaw (decodedText (window (encodeUtf8 t)))) info.cpr info.lic ∧
+    (let old := oldHeader c replace (Py.replace text ['\n'] ['\n'])
+     old ≠ [] → Declares c.normLic (extractRaw (decodedText (window (encodeUtf8 t))))
+       (extractRaw old).cpr (extractRaw old).lic) := by
+  obtain ⟨p, hp, ht⟩ := annotateText_parts h
+  rw [hle] at hp ht
+  have hd := createHeader_declares hmerge hnorm (headerParts_created hp)
+  have ht' : t = placeHeader p.1 p.2.1 p.2.2.1 p.2.2.2 := by
+    rw [ht]; unfold retranslate; simp
+  obtain ⟨hlen, hcr⟩ := hfit p hp
+  obtain ⟨pre, tailText, hwin, hpre⟩ := C07A.window_head p.1 p.2.1 p.2.2.1 p.2.2.2 hcr hlen
+  rw [ht', hwin] at hns ⊢
+  have htg := C07_tags_compose pre p.1 tailText hpre hns (hclosed p hp)
+  exact ⟨declares_of_embed hpre hns htg hd.1, fun ho => declares_of_embed hpre hns htg (hd.2 ho)⟩
+
+/-- … and when moreover every expression found in the window parses, `reuse_info_of_file` (the
+    function `reuse lint` calls) reports exactly that extraction — so everything requested is in
+    lint's result for the file (contributors included as far as the window extraction shows them).
+    (`hparse` fails exactly for the known finding c07-unparseable-expression-elsewhere.) -/
+theorem C07_lint_reads_back (c : HdrCfg) (replace skip : Bool) (info : Extracted) (text t : Text)
+    (hmerge : c.merge = false) (hnorm : ∀ x, c.normLic (c.normLic x) = c.normLic x)
+    (hle : detectLineEnding text = ['\n'])
+    (h : annotateText c replace skip info text = .written t)
+    (hclosed : ∀ p, headerParts c replace info (Py.replace text ['\n'] ['\n']) = .ok p →
+      tagLinesClosed Generated.endRe p.1 = true)
+    (hfit : ∀ p, headerParts c replace info (Py.replace text ['\n'] ['\n']) = .ok p →
+      (encodeUtf8 (headPart p.1 p.2.1)).length ≤ 4096 ∧ '\r' ∉ headPart p.1 p.2.1)
+    (hns : noIgnoreStart (decodedText (window (encodeUtf8 t))) = true)
+    (hparse : ∀ x ∈ (extractRaw (decodedText (window (encodeUtf8 t)))).lic, c.parses x = true)
+    (hsome : info.cpr ≠ [] ∨ info.lic ≠ []) :
+    Declares c.normLic (infoOfFile c.parses (encodeUtf8 t)) info.cpr info.lic := by
+  have hd := (C07_file_window c replace skip info text t hmerge hnorm hle h hclosed hfit hns).1
+  have hne : ((extractRaw (decodedText (window (encodeUtf8 t)))).lic.isEmpty &&
+      (extractRaw (decodedText (window (encodeUtf8 t)))).cpr.isEmpty) = false := by
+    rcases hsome with hs | hs
+    · obtain ⟨x, xs, hx⟩ := List.exists_cons_of_ne_nil hs
+      have := hd.1 x (by rw [hx]; simp)
+      cases hc : (extractRaw (decodedText (window (encodeUtf8 t)))).cpr with
+      | nil => rw [hc] at this; cases this
+      | cons _ _ => simp
+    · obtain ⟨x, xs, hx⟩ := List.exists_cons_of_ne_nil hs
+      have := hd.2 x (by rw [hx]; simp)
+      cases hc : (extractRaw (decodedText (window (encodeUtf8 t)))).lic with
+      | nil => rw [hc] at this; simp at this
+      | cons _ _ => simp
+  rw [C02.C02_parseable_reports_all c.parses (encodeUtf8 t) hparse hne]
+  exact hd
 
 -- the hypotheses are satisfiable (the driver evaluates them on every case of the `filetie` stream)
 example : noIgnoreStart "# SPDX-License-Identifier: MIT\n".toList = true := by decide
